@@ -3,6 +3,7 @@
 package main
 
 import (
+	"encoding/json"
 	"flag"
 	"fmt"
 	"os"
@@ -33,6 +34,11 @@ func main() {
 		}
 		sort.Strings(ids)
 		for _, id := range ids {
+			if os.Getenv("RQCHECK_LIST_JSON") != "" {
+				b, _ := json.Marshal(map[string]any{"id": id, "title": reg[id].Title, "explanation": reg[id].Explanation, "not_covered": reg[id].NotCovered})
+				fmt.Printf("%s\n", b)
+				continue
+			}
 			fmt.Printf("%s\t%s\n", id, reg[id].Title)
 		}
 		return
